@@ -242,6 +242,27 @@ fn grid(level: u32) -> Vec<Case> {
         let mut rr = a.rr.clone(); rr.extend(b.rr.clone());
         out.push(Case { text: format!("{} || {}", a.text, b.text), rr });
     } }
+    // loose spellings the crate accepts (C01): blanks after an operator, `v` prefix, leading zeros, prerelease without its hyphen,
+    // surrounding blanks, unparseable tokens dropped -- each must read like the canonical spelling
+    {
+        let find = |t: &str| ss.iter().find(|s| s.text == t).map(|s| s.cs.clone());
+        let variants: [(&str, &str); 36] = [
+            (">= 1.2.3", ">=1.2.3"), (">=v1.2.3", ">=1.2.3"), ("v1.2.3", "1.2.3"), ("=v1.2.3", "=1.2.3"), ("01.02.03", "1.2.3"), (">=01.02.03", ">=1.2.3"),
+            ("1.2.3beta", "1.2.3-beta"), (">=1.2.3beta", ">=1.2.3-beta"), ("<1.2.3beta", "<1.2.3-beta"), ("~ 1.2.3", "~1.2.3"), ("^ 1.2.3", "^1.2.3"), ("~> 1.2.3", "~>1.2.3"),
+            ("  1.2.3  ", "1.2.3"), ("v 1.2.3", "1.2.3"), ("^v1.2", "^1.2"), ("~v1.2", "~1.2"), ("<=v2", "<=2"), ("> 1.0.0", ">1.0.0"), ("< 2.0.0", "<2.0.0"), ("<= 1.2.3", "<=1.2.3"),
+            ("= 1.2.3", "=1.2.3"), (">=1.2.3-beta", ">=1.2.3-beta"), ("^01.02", "^1.2"), ("~01.2.3", "~1.2.3"), ("1.X", "1.x"), ("1.*", "1.x"), ("1.2.*", "1.2.x"), ("1.2.X", "1.2.x"),
+            ("X", "x"), (">=1.X", ">=1.x"), ("<1.2.X", "<1.2.x"), ("^1.2.X", "^1.2"), ("~1.X", "~1.x"), ("=1.*", "=1.x"), ("1.2.3+build", "1.2.3"), (">=1.2.3+b.1", ">=1.2.3"),
+        ];
+        for (text, canon) in variants.iter() {
+            if let Some(cs) = find(canon) {
+                out.push(Case { text: text.to_string(), rr: vec![cs.clone()] });
+                out.push(Case { text: format!("{} foo", text), rr: vec![cs.clone()] });
+                out.push(Case { text: format!("bar {}", text), rr: vec![cs.clone()] });
+                if let Some(c2) = find("<2.0.0") { let mut both = cs.clone(); both.extend(c2); out.push(Case { text: format!("{} junk < 2.0.0", text), rr: vec![both] }); }
+                if let Some(c3) = find(">=3") { out.push(Case { text: format!("{}  ||  >= 3", text), rr: vec![cs.clone(), c3] }); }
+            }
+        }
+    }
     // an alternative made only of unparseable tokens carries no comparator and is dropped
     out.push(Case { text: "foo || 1.2.3".into(), rr: vec![npm_primitive("", &partials()[15])] });
     out.push(Case { text: "1.2.3 foo".into(), rr: vec![npm_primitive("", &partials()[15])] });
@@ -493,7 +514,37 @@ fn check_c14() {
 }
 
 // ------------------------------------------------------------------------------------------------ C06 / C18
+fn touch_error(e: &nodejs_semver::SemverError) {
+    let _ = e.input(); let _ = e.offset(); let _ = e.span(); let _ = e.kind(); let _ = e.location(); let _ = e.to_string(); let _ = format!("{:?}", e);
+    use miette::Diagnostic;
+    let _ = e.code().map(|c| c.to_string()); let _ = e.help().map(|c| c.to_string()); let _ = e.labels().map(|l| l.count()); let _ = e.source_code().is_some();
+}
+fn check_c06_strings() {
+    // every string up to length 4 over an alphabet covering each token class, plus longer hand picked ones
+    let alpha: Vec<char> = "10.x*-+ <>=~^|va\u{e9}".chars().collect();
+    let mut all: Vec<String> = vec![String::new()];
+    let mut frontier: Vec<String> = vec![String::new()];
+    for _ in 0..4 {
+        let mut next = vec![];
+        for s in &frontier { for c in &alpha { let mut t = s.clone(); t.push(*c); next.push(t); } }
+        all.extend(next.iter().cloned());
+        frontier = next;
+    }
+    for n in [255usize, 256, 257, 300] {
+        all.push("1".repeat(n)); all.push(format!("1.2.3-{}", "a".repeat(n))); all.push(format!("{}\u{e9}", "a".repeat(n))); all.push(format!("1.2.3\n{}", "b".repeat(n)));
+        all.push(format!("{} || {}", ">=1.2.3 ".repeat(n / 8), "x".repeat(n)));
+    }
+    for t in ["1.2.900719925474100", "1.2.99999999999999999999999", ">=1.2.99999999999999999999999", "1.2.3\n4.5.6", "\n\n1.2", "1.2.3-\u{e9}", ">=\u{e9}", "\u{1F600}", "1.2.3 - ", " - 1.2.3", "1.2.3 - 2.0.0 - 3"] { all.push(t.to_string()); }
+    for t in &all {
+        let r = catch_unwind(AssertUnwindSafe(|| {
+            match Version::parse(t) { Ok(v) => { let _ = v.to_string(); } Err(e) => touch_error(&e) }
+            match Range::parse(t) { Ok(r) => { let _ = r.to_string(); let _ = r.min_version(); } Err(e) => touch_error(&e) }
+        }));
+        if r.is_err() { fail("C06", "parse or an accessor of the returned error panics", format!("{:?}", t), String::new()); }
+    }
+}
 fn check_c06() {
+    check_c06_strings();
     let mut texts: Vec<String> = grid(0).into_iter().map(|c| c.text).collect();
     texts.truncate(700);
     for t in ["2.1 - 3.0 || <2.3.2 <1.0 =3.2.1-0", "=3.1.0-0", "<=1", "<=1.x", "<=1.*.*", "<=900719925474099", ">=900719925474099.900719925474099.900719925474099", "<1.0.0-alpha", ">=1.0.0-alpha || >1.0.0-alpha"] { texts.push(t.to_string()); }
